@@ -396,3 +396,62 @@ pub struct WUnprotectedPrivate;
 /// let _ = circ::cs();
 /// ```
 pub struct TUnprotectedPrivate;
+
+/// A reference obtained through an Rc is a borrow of that Rc: it cannot be used after the Rc is dropped.
+/// ```compile_fail,E0505
+/// # use circ::{RcObject, Rc};
+/// # struct N(u32); unsafe impl RcObject for N { fn pop_edges(&mut self, _: &mut Vec<Rc<Self>>) {} }
+/// let rc = Rc::new(N(1));
+/// let r = rc.as_ref().unwrap();
+/// drop(rc);
+/// let _ = r.0;
+/// ```
+pub struct WRcRefBorrow;
+
+/// ```no_run
+/// # use circ::{RcObject, Rc};
+/// # struct N(u32); unsafe impl RcObject for N { fn pop_edges(&mut self, _: &mut Vec<Rc<Self>>) {} }
+/// let rc = Rc::new(N(1));
+/// let r = rc.as_ref().unwrap();
+/// let _ = r.0;
+/// drop(rc);
+/// ```
+pub struct TRcRefBorrow;
+
+/// ... also through the unsafe `deref`: its lifetime is the borrow of the Rc.
+/// ```compile_fail,E0505
+/// # use circ::{RcObject, Rc};
+/// # struct N(u32); unsafe impl RcObject for N { fn pop_edges(&mut self, _: &mut Vec<Rc<Self>>) {} }
+/// let rc = Rc::new(N(1));
+/// let r = unsafe { rc.deref() };
+/// drop(rc);
+/// let _ = r.0;
+/// ```
+pub struct WRcDerefBorrow;
+
+/// ```no_run
+/// # use circ::{RcObject, Rc};
+/// # struct N(u32); unsafe impl RcObject for N { fn pop_edges(&mut self, _: &mut Vec<Rc<Self>>) {} }
+/// let rc = Rc::new(N(1));
+/// let r = unsafe { rc.deref() };
+/// let _ = r.0;
+/// drop(rc);
+/// ```
+pub struct TRcDerefBorrow;
+
+/// A mutable reference through an Rc needs the Rc exclusively.
+/// ```compile_fail,E0596
+/// # use circ::{RcObject, Rc};
+/// # struct N(u32); unsafe impl RcObject for N { fn pop_edges(&mut self, _: &mut Vec<Rc<Self>>) {} }
+/// let rc = Rc::new(N(1));
+/// let _ = unsafe { rc.as_mut() };
+/// ```
+pub struct WRcAsMutExclusive;
+
+/// ```no_run
+/// # use circ::{RcObject, Rc};
+/// # struct N(u32); unsafe impl RcObject for N { fn pop_edges(&mut self, _: &mut Vec<Rc<Self>>) {} }
+/// let mut rc = Rc::new(N(1));
+/// let _ = unsafe { rc.as_mut() };
+/// ```
+pub struct TRcAsMutExclusive;
